@@ -1384,13 +1384,16 @@ def independence_labels(case):
 # ------------------------------------ explicit thresholds (v_min / v_max given)
 
 @functools.lru_cache(maxsize=None)
-def _threshold_vmapped(q, levels):
+def _threshold_vmapped(q, levels, given='both'):
+  # (a threshold that is not given is passed as None: it defaults to the
+  # vector's own minimum / maximum)
+  pick = lambda lo, hi: (lo if given != 'hi_only' else None, hi if given != 'lo_only' else None)
   if q == 'uniform':
     f = lambda keys, v, lo, hi: jax.vmap(
-        lambda k: C.uniform_stochastic_quantize(v, levels, k, lo, hi))(keys)
+        lambda k: C.uniform_stochastic_quantize(v, levels, k, *pick(lo, hi)))(keys)
   else:
     f = lambda keys, v, lo, hi: jax.vmap(
-        lambda k: C.binary_stochastic_quantize(v, k, lo, hi))(keys)
+        lambda k: C.binary_stochastic_quantize(v, k, *pick(lo, hi)))(keys)
   return jax.jit(f)
 
 
@@ -1402,9 +1405,16 @@ def run_thresholds(case):
   q, levels = case['q'], (case['levels'] if case['q'] == 'uniform' else 2)
   v = np.asarray(case['values'], F32)
   lo, hi = float(F32(case['lo'])), float(F32(case['hi']))
+  given = case.get('given', 'both')
+  if given == 'lo_only' and lo < float(v.max()):
+    hi = float(v.max())            # only v_min is given: v_max is the data's own
+  elif given == 'hi_only' and hi > float(v.min()):
+    lo = float(v.min())
+  else:
+    given = 'both'
   k = case['K']
-  out = np.asarray(_threshold_vmapped(q, levels)(keys_from(case['seed'], k), jnp.asarray(v),
-                                                 F32(lo), F32(hi)), np.float64)
+  out = np.asarray(_threshold_vmapped(q, levels, given)(
+      keys_from(case['seed'], k), jnp.asarray(v), F32(lo), F32(hi)), np.float64)
   require(out.shape == (k, v.size), 'thresholds:output_shape', f'{out.shape}')
   require(bool(np.isfinite(out).all()), 'thresholds:nonfinite', f'lo={lo} hi={hi}')
   step = (hi - lo) / (levels - 1)
@@ -1437,12 +1447,13 @@ def thresholds_case(draw, tier):
   width8 = draw(st.sampled_from([1, 2, 8, 16, 40, 144]))
   return {'q': q, 'levels': draw(st.sampled_from([2, 3, 4, 5, 16, 64])), 'values': vals,
           'lo': lo8 / 8.0, 'hi': (lo8 + width8) / 8.0, 'seed': draw(SEEDS),
-          'K': 2000 if tier == 'quick' else 8000}
+          'K': 2000 if tier == 'quick' else 8000,
+          'given': draw(st.sampled_from(['both', 'both', 'lo_only', 'hi_only']))}
 
 
 def thresholds_labels(case):
   v = np.asarray(case['values'])
-  ls = ['q:' + case['q']]
+  ls = ['q:' + case['q'], 'thresholds_given:' + case.get('given', 'both')]
   ls.append('data_beyond_thresholds' if (v.min() < case['lo'] or v.max() > case['hi'])
             else 'thresholds_wider_than_data')
   return ls
